@@ -79,29 +79,33 @@ def opsTreemapCore : Handler := fun st toks =>
   | ["tinsert", d, v] => do
     let (i, sl) ← t? d; let v ← parseU64 v
     let r := Treemap.insert sl.m v; let q := Spec.insert sl.s v
-    pure (st.setT i ⟨r.1, q.1⟩, specMark (showBool r.2) (showBool q.2))
+    pure (st.setT i ⟨r.1, q.1⟩, specMark (showBool r.2) (showBool q.2) ++ safeMark "tinsert" (decide (Treemap.Safe_insert sl.m v)))
   | ["tremove", d, v] => do
     let (i, sl) ← t? d; let v ← parseU64 v
     let r := Treemap.remove sl.m v; let q := Spec.remove sl.s v
-    pure (st.setT i ⟨r.1, q.1⟩, specMark (showBool r.2) (showBool q.2))
+    pure (st.setT i ⟨r.1, q.1⟩, specMark (showBool r.2) (showBool q.2) ++ safeMark "tremove" (decide (Treemap.Safe_remove sl.m v)))
   | ["tinsert_range", d, lo, hi] => do
     let (i, sl) ← t? d; let lo ← parseBound64 lo; let hi ← parseBound64 hi
     let r := Treemap.insertRange sl.m lo hi; let q := Spec.insertRange u64Max sl.s lo hi
-    pure (st.setT i ⟨r.1, q.1⟩, specMark (toString r.2) (toString q.2))
+    pure (st.setT i ⟨r.1, q.1⟩, specMark (toString r.2) (toString q.2)
+      ++ safeMark "tinsert_range" (decide (Treemap.Safe_insertRange sl.m lo hi)))
   | ["tremove_range", d, lo, hi] => do
     let (i, sl) ← t? d; let lo ← parseBound64 lo; let hi ← parseBound64 hi
     let r := Treemap.removeRange sl.m lo hi; let q := Spec.removeRange u64Max sl.s lo hi
-    pure (st.setT i ⟨r.1, q.1⟩, specMark (toString r.2) (toString q.2))
+    pure (st.setT i ⟨r.1, q.1⟩, specMark (toString r.2) (toString q.2)
+      ++ safeMark "tremove_range" (sl.m.any (fun p => p.2.length > safeMaxContainers)
+            || decide (Treemap.Safe_removeRange sl.m lo hi)))
   | ["tpush", d, v] => do
     let (i, sl) ← t? d; let v ← parseU64 v
     let r := Treemap.push sl.m v; let q := Spec.push sl.s v
-    pure (st.setT i ⟨r.1, q.1⟩, specMark (showBool r.2) (showBool q.2))
+    pure (st.setT i ⟨r.1, q.1⟩, specMark (showBool r.2) (showBool q.2) ++ safeMark "tpush" (decide (Treemap.Safe_push sl.m v)))
   | "tappend" :: d :: vs => do
     let (i, sl) ← t? d; let vs ← parseNats64 vs
     let q := Spec.append sl.s vs
+    let safe := safeMark "tappend" (vs.length > safeMaxValues || decide (Treemap.Safe_append st.dbg sl.m vs))
     match Treemap.append st.dbg sl.m vs with
-    | some r => pure (st.setT i ⟨r.1, q.1⟩, specMark (showAppend r.2) (showAppend q.2))
-    | none => pure (st, specMark "panic" (showAppend q.2))
+    | some r => pure (st.setT i ⟨r.1, q.1⟩, specMark (showAppend r.2) (showAppend q.2) ++ safe)
+    | none => pure (st, specMark "panic" (showAppend q.2) ++ safe)
   | "tfrom_sorted" :: d :: vs => do
     let i ← parseTSlot 't' d; let vs ← parseNats64 vs
     let q := Spec.append [] vs
@@ -121,10 +125,11 @@ def opsTreemapCore : Handler := fun st toks =>
     pure (st.setT i ⟨Treemap.clear sl.m, []⟩, "ok")
   | ["tcontains", d, v] => do
     let (_, sl) ← t? d; let v ← parseU64 v
-    pure (st, specMark (showBool (Treemap.contains sl.m v)) (showBool (Spec.contains sl.s v)))
+    pure (st, specMark (showBool (Treemap.contains sl.m v)) (showBool (Spec.contains sl.s v))
+      ++ safeMark "tcontains" (decide (Treemap.Safe_contains sl.m v)))
   | ["tlen", d] => do
     let (_, sl) ← t? d
-    pure (st, specMark (toString (Treemap.len sl.m)) (toString sl.s.length))
+    pure (st, specMark (toString (Treemap.len sl.m)) (toString sl.s.length) ++ safeMark "tlen" (decide (Treemap.Safe_len sl.m)))
   | ["tis_empty", d] => do
     let (_, sl) ← t? d
     pure (st, specMark (showBool (Treemap.isEmpty sl.m)) (showBool sl.s.isEmpty))
@@ -136,15 +141,16 @@ def opsTreemapCore : Handler := fun st toks =>
     pure (st, specMark (showOpt (Treemap.min? sl.m)) (showOpt (Spec.min? sl.s)))
   | ["tmax", d] => do
     let (_, sl) ← t? d
-    pure (st, specMark (showOpt (Treemap.max? sl.m)) (showOpt (Spec.max? sl.s)))
+    pure (st, specMark (showOpt (Treemap.max? sl.m)) (showOpt (Spec.max? sl.s)) ++ safeMark "tmax" (decide (Treemap.Safe_max sl.m)))
   | ["trank", d, v] => do
     let (_, sl) ← t? d; let v ← parseU64 v
-    pure (st, specMark (toString (Treemap.rank sl.m v)) (toString (Spec.rank sl.s v)))
+    pure (st, specMark (toString (Treemap.rank sl.m v)) (toString (Spec.rank sl.s v)) ++ safeMark "trank" (decide (Treemap.Safe_rank sl.m v)))
   | ["tselect", d, n] => do
     let (_, sl) ← t? d; let n ← parseU64 n
+    let safe := safeMark "tselect" (decide (Treemap.Safe_select sl.m n))
     match Treemap.select sl.m n with
-    | some r => pure (st, specMark (showOpt r) (showOpt (Spec.select sl.s n)))
-    | none => pure (st, specMark "panic" (showOpt (Spec.select sl.s n)))
+    | some r => pure (st, specMark (showOpt r) (showOpt (Spec.select sl.s n)) ++ safe)
+    | none => pure (st, specMark "panic" (showOpt (Spec.select sl.s n)) ++ safe)
   | ["teq", a, b] => do
     let (_, x) ← t? a; let (_, y) ← t? b
     pure (st, specMark (showBool (Treemap.eq x.m y.m)) (showBool (x.s == y.s)))
